@@ -574,6 +574,26 @@ func sameAttributes(a, b *model.IstioEndpoint) bool {
 	return canon(a) == canon(b)
 }
 
+// changedAttribute names the first attribute in which two endpoints with the same key differ.
+func changedAttribute(a, b *model.IstioEndpoint) string {
+	names := []string{"namespace", "workload", "addresses", "port-name", "endpoint-port", "legacy-port", "service-account", "network",
+		"locality", "cluster", "weight", "tls-mode", "hostname", "subdomain", "health", "send-unhealthy", "node", "labels", "discoverability"}
+	ca, cb := a.DeepCopy(), b.DeepCopy()
+	if len(ca.Addresses) > 1 {
+		sort.Strings(ca.Addresses[1:])
+	}
+	if len(cb.Addresses) > 1 {
+		sort.Strings(cb.Addresses[1:])
+	}
+	fa, fb := strings.Split(encEp(ca), "|"), strings.Split(encEp(cb), "|")
+	for i := range fa {
+		if i < len(fb) && i < len(names) && fa[i] != fb[i] {
+			return names[i]
+		}
+	}
+	return "other"
+}
+
 func oracleIndex(in, outp string) {
 	out := wire.Create(outp)
 	defer out.Close()
@@ -725,12 +745,19 @@ func oracleIndex(in, outp string) {
 						}
 					}
 					if !found {
-						fail("nopush-sound", "stored endpoint changed or removed: "+encEp(oe))
+						// the clause names what changed, so that the fingerprint is the class of the missed change
+						what := "removed"
+						for _, ne := range o.eps {
+							if ne.Key() == oe.Key() {
+								what = changedAttribute(oe, ne)
+							}
+						}
+						fail("nopush-sound:"+what, "stored endpoint changed or removed: "+encEp(oe))
 					}
 				}
 				for _, ne := range o.eps {
 					if _, f := keys[ne.Key()]; !f && (ne.HealthStatus != model.UnHealthy || ne.SendUnhealthyEndpoints) {
-						fail("nopush-sound", "added endpoint: "+encEp(ne))
+						fail("nopush-sound:added", "added endpoint: "+encEp(ne))
 					}
 				}
 			}
